@@ -9,7 +9,27 @@ def pattern_frames(big):
     """The cyclic frame pattern laid over the records (one frame larger than the receive size, empty frames at several places)."""
     return [SFrame(TEXT, b'a'), SFrame(PING, b'p'), SFrame(BINARY, b''), SFrame(TEXT, b''), SFrame(TEXT, b'x', fin=0), SFrame(CONT, b'y'),
             SFrame(BINARY, bytes(i & 0xFF for i in range(big))), SFrame(PING, b''), SFrame(TEXT, b'', fin=0), SFrame(CONT, b''), SFrame(PONG, b'q'),
-            SFrame(TEXT, '€'.encode())]
+            SFrame(TEXT, '€'.encode()),
+            # a control frame between the fragments of a message: it is due when *it* is complete, not when the message is
+            SFrame(BINARY, b'm', fin=0), SFrame(PING, b'bt'), SFrame(CONT, b'n')]
+
+
+NPAT = 15
+
+
+def pattern_offsets(step=1):
+    """Rotations of the pattern that start at a message boundary (a rotation that began inside a fragmented message would be an
+    invalid stream, which is C04's subject)."""
+    frames = pattern_frames(4)
+    out, open_msg = [], False
+    for i, f in enumerate(frames):
+        if not open_msg and f.op != CONT:
+            out.append(i)
+        if f.op in (TEXT, BINARY):
+            open_msg = not f.fin
+        elif f.op == CONT:
+            open_msg = not f.fin
+    return out[::step]
 
 
 def make_stream(total, big, offset):
@@ -134,14 +154,14 @@ class C18(F.Check):
 
     def rule(self, tier):
         return ('transports {plain, tls} x bursts <= %d x records per burst <= %d x sizes {1,7,8,9,17} (B=8) x %d pattern offsets; plus real-size patterns. '
-                'distinct = distinct (transport, burst shape, offset)' % (3 if tier == 'thorough' else 2, 2 if tier == 'thorough' else 3, 12 if tier == 'thorough' else 6))
+                'distinct = distinct (transport, burst shape, offset)' % (3 if tier == 'thorough' else 2, 2 if tier == 'thorough' else 3, len(pattern_offsets()) if tier == 'thorough' else len(pattern_offsets(2))))
 
     def bounds(self, tier):
         return {'B': 8, 'bursts': 3 if tier == 'thorough' else 2}
 
     def jobs(self, tier, seed):
         jobs = []
-        offs = range(12) if tier == 'thorough' else range(0, 12, 2)
+        offs = pattern_offsets() if tier == 'thorough' else pattern_offsets(2)
         for tls in (False, True):
             for off in offs:
                 jobs.append({'tls': tls, 'offset': off, 'tier': tier})
